@@ -848,6 +848,16 @@ class EpiSim(object):
                 h = self.handles[op.get("env", 0)]
                 t = h.env.exchange.last_update
                 c = event_contract(None, h.contracts, op["c"])
+                older = False
+                if op.get("older"):
+                    # ... or stamped before the exchange's latest quote (of another contract) but after everything this
+                    # contract's book and the account have seen: an out-of-order feed
+                    lower = h.env.exchange[c].time
+                    if len(h.env.broker.track_record) and lower is not None:
+                        lower = max(lower, h.env.broker.track_record[-1].time)
+                    if lower is not None and lower < t:
+                        t = lower + (t - lower) / 2
+                        older = True
                 ev = EventNBBO(t, c, op["bid"], op["ask"])
                 self.sink.idmap[id(ev)] = "notify"
                 rec = {"seq": self.sink.next_seq(), "kind": "notify", "env": h.tag, "sym": c.symbol, "bid": op["bid"], "ask": op["ask"], "time": t, "exc": None}
@@ -857,7 +867,7 @@ class EpiSim(object):
                 except Exception as e:
                     rec["exc"] = core.exc_name(e)
                 rec["end_seq"] = self.sink.next_seq()
-                self.fault("quote_pushed_between_steps_with_the_last_timestamp")
+                self.fault("quote_pushed_between_steps_with_an_older_timestamp" if older else "quote_pushed_between_steps_with_the_last_timestamp")
             elif name == "bad_env":
                 # error path: somebody tries to build another environment on this transmitter with a latency that is
                 # not smaller than the smallest gap between timesteps; the constructor must refuse it and leave the
